@@ -98,6 +98,13 @@ def run_case(case):
         res["violations"] += [{"key": "panel_unusable:" + v["key"], "what": v["what"]} for v in j["C13"]]
     for k, v in j["counters"].items():
         res["counters"][k] = res["counters"].get(k, 0) + v
+    try:  # W8 (advisory): event trace of the simulate loop against its trace specification
+        tdev = simcheck.check_sim_trace(mon, ref.T, df, init, vf, ref.states)
+    except Exception:  # noqa: BLE001
+        tdev = []
+        mon.add("w8_trace_checker_error")
+    if tdev:
+        res.setdefault("localisation", []).extend(tdev[:5])
     for k, v in mon.counters.items():
         res["counters"][k] = res["counters"].get(k, 0) + v
     res["counters"]["models_simulated"] = 1
